@@ -30,7 +30,7 @@ def dset (k : String) (v : β) : List (String × β) → List (String × β)
   | (k', v') :: r => if k' = k then (k', v) :: r else (k', v') :: dset k v r
 
 /-- `del d[k]` (a dict never holds a key twice, so removing every entry for `k` is the same thing) -/
-def ddel (k : String) (l : List (String × β)) : List (String × β) := l.filter (fun p => p.1 ≠ k)
+def ddel (k : String) (l : List (String × β)) : List (String × β) := l.filter (fun p => !decide (p.1 = k))
 end Dict
 
 /-- `types` / `servers`: key ↦ list of service keys -/
@@ -206,7 +206,7 @@ def removeOne (reg : Registry) (k : String) : Except PyExc Registry :=
     | .ok types =>
       match reg.servers.remove (old.serverKey lower) k with
       | .error e => .error e
-      | .ok servers => .ok { reg with services := reg.services.filter (fun s => lower s.name ≠ k), types, servers }
+      | .ok servers => .ok { reg with services := reg.services.filter (fun s => !decide (lower s.name = k)), types, servers }
 
 /-- `_remove(infos)` -/
 def remove (reg : Registry) : List String → Except PyExc Registry
@@ -225,11 +225,21 @@ def update (reg : Registry) (s : Svc) : Except PyExc Registry :=
 def mutate (reg : Registry) (k : String) (m : Mut) : Registry :=
   { reg with services := reg.services.map (fun s => if lower s.name = k then s.mutate m else s) }
 
+/-- `[self._services[name] for name in record_list]` (`KeyError` if an index names an unknown service) -/
+def lookupAll (svcs : List Svc) : List String → Except PyExc (List Svc)
+  | [] => .ok []
+  | n :: ns =>
+    match sget lower n svcs with
+    | none => .error .keyError
+    | some s => match lookupAll svcs ns with
+      | .error e => .error e
+      | .ok r => .ok (s :: r)
+
 /-- `_async_get_by_index` -/
 def byIndex (reg : Registry) (idx : Index) (k : String) : Except PyExc (List Svc) :=
   match dget k idx with
   | none => .ok []
-  | some names => names.mapM (fun n => match sget lower n reg.services with | some s => .ok s | none => .error .keyError)
+  | some names => lookupAll lower reg.services names
 
 /-- `async_get_types` -/
 def getTypes (reg : Registry) : List String := reg.types.map Prod.fst
@@ -244,8 +254,8 @@ def removeOneUnrepaired (reg : Registry) (k : String) : Except PyExc Registry :=
     | .ok types =>
       match reg.servers.removeUnrepaired (old.serverKey lower) k with
       | .error e => .error e
-      | .ok servers => .ok { reg with services := reg.services.filter (fun s => lower s.name ≠ k), types, servers,
-                                       hasEntries := !(reg.services.filter (fun s => lower s.name ≠ k)).isEmpty }
+      | .ok servers => .ok { reg with services := reg.services.filter (fun s => !decide (lower s.name = k)), types, servers,
+                                       hasEntries := !(reg.services.filter (fun s => !decide (lower s.name = k))).isEmpty }
 
 end Registry
 end
